@@ -6,3 +6,9 @@ claim("C03", "exploration",
       "Thousands of generated expression trees (plus every type-valid ordered operator pair and every literal form) are printed, parsed by the real parser and compared by value with the tree they were printed from; both the committed generated parser and, when its ATN differs, the parser regenerated from the working-tree grammar are monitored. Sampling, not proof: the right level for an unbounded input space.",
       "trusts the mexpr evaluator/printer as the Modelica meaning of the generated subset and the AST adapter; java+antlr jar from /repo/antlr used to rebuild the grammar",
       "DESIGN.md section 4, C03")
+
+claim("C11", "exploration",
+      "reference-model monitor on generate()+simplify(): mflat reference residual vs CasADi residual at typed random points",
+      "Thousands of generated flat models (scalar, Boolean, if-, for-, array, function-call and initial equations over every operator and builtin reachable through OP_MAP/exitExpression) are compiled by the real backend; dae and initial residual functions are evaluated at typed random points and compared per equation with an independent Python evaluator. Held = no mismatch and no generation failure on everything generated; coverage per feature/operator is in the evidence.",
+      "trusts the mflat/mexpr evaluator, CasADi's evaluation of its own functions, and the conditioning guard (ill-conditioned points are discarded, counted)",
+      "DESIGN.md section 4, C11")
